@@ -872,7 +872,8 @@ def _vec_is_empty(m, a, c):
     return len(items_of(v)) == 0
 
 
-@reg("std::vec::Vec::<T, A>::extend", "<std::vec::Vec<T, A> as std::iter::Extend<T>>::extend")
+@reg("std::vec::Vec::<T, A>::extend", "<std::vec::Vec<T, A> as std::iter::Extend<T>>::extend",
+     "<std::vec::Vec<T, A> as std::iter::Extend<&'a T>>::extend")
 def _vec_extend(m, a, c):
     v = deref(a[0])
     v.items.extend(items_of(a[1]))
